@@ -199,3 +199,246 @@ pub fn sha512(m: &[u8]) -> [u8; 64] {
     unsafe { so::crypto_hash_sha512(out.as_mut_ptr(), m.as_ptr(), m.len() as u64) };
     out
 }
+
+/// raw X25519: (return code, output buffer — zero-initialised, untouched when libsodium
+/// refuses a blocklisted small-order point)
+pub fn scalarmult_raw(n: &[u8; 32], p: &[u8; 32]) -> (i32, [u8; 32]) {
+    let mut q = [0u8; 32];
+    let r = unsafe { so::crypto_scalarmult(q.as_mut_ptr(), n.as_ptr(), p.as_ptr()) };
+    (r, q)
+}
+pub fn kx_client(cpk: &[u8; 32], csk: &[u8; 32], spk: &[u8; 32]) -> Option<([u8; 32], [u8; 32])> {
+    let mut rx = [0u8; 32];
+    let mut tx = [0u8; 32];
+    let r = unsafe { so::crypto_kx_client_session_keys(rx.as_mut_ptr(), tx.as_mut_ptr(), cpk.as_ptr(), csk.as_ptr(), spk.as_ptr()) };
+    if r == 0 {
+        Some((rx, tx))
+    } else {
+        None
+    }
+}
+pub fn kx_server(spk: &[u8; 32], ssk: &[u8; 32], cpk: &[u8; 32]) -> Option<([u8; 32], [u8; 32])> {
+    let mut rx = [0u8; 32];
+    let mut tx = [0u8; 32];
+    let r = unsafe { so::crypto_kx_server_session_keys(rx.as_mut_ptr(), tx.as_mut_ptr(), spk.as_ptr(), ssk.as_ptr(), cpk.as_ptr()) };
+    if r == 0 {
+        Some((rx, tx))
+    } else {
+        None
+    }
+}
+pub fn kx_seed_keypair(seed: &[u8; 32]) -> ([u8; 32], [u8; 32]) {
+    let mut pk = [0u8; 32];
+    let mut sk = [0u8; 32];
+    unsafe { so::crypto_kx_seed_keypair(pk.as_mut_ptr(), sk.as_mut_ptr(), seed.as_ptr()) };
+    (pk, sk)
+}
+
+// ---------------------------------------------------------------------------------------
+// Ed25519
+
+pub fn sign_seed_keypair(seed: &[u8; 32]) -> ([u8; 32], [u8; 64]) {
+    let mut pk = [0u8; 32];
+    let mut sk = [0u8; 64];
+    unsafe { so::crypto_sign_seed_keypair(pk.as_mut_ptr(), sk.as_mut_ptr(), seed.as_ptr()) };
+    (pk, sk)
+}
+pub fn sign_detached(m: &[u8], sk: &[u8; 64]) -> [u8; 64] {
+    let mut sig = [0u8; 64];
+    let mut l: u64 = 0;
+    unsafe { so::crypto_sign_detached(sig.as_mut_ptr(), &mut l, m.as_ptr(), m.len() as u64, sk.as_ptr()) };
+    sig
+}
+pub fn sign_combined(m: &[u8], sk: &[u8; 64]) -> Vec<u8> {
+    let mut sm = vec![0u8; m.len() + 64];
+    let mut l: u64 = 0;
+    unsafe { so::crypto_sign(sm.as_mut_ptr(), &mut l, m.as_ptr(), m.len() as u64, sk.as_ptr()) };
+    sm.truncate(l as usize);
+    sm
+}
+pub fn sign_verify_detached(sig: &[u8; 64], m: &[u8], pk: &[u8; 32]) -> bool {
+    unsafe { so::crypto_sign_verify_detached(sig.as_ptr(), m.as_ptr(), m.len() as u64, pk.as_ptr()) == 0 }
+}
+pub fn sign_open(sm: &[u8], pk: &[u8; 32]) -> Option<Vec<u8>> {
+    let mut m = vec![0u8; sm.len().max(64)];
+    let mut l: u64 = 0;
+    let r = unsafe { so::crypto_sign_open(m.as_mut_ptr(), &mut l, sm.as_ptr(), sm.len() as u64, pk.as_ptr()) };
+    if r == 0 {
+        m.truncate(l as usize);
+        Some(m)
+    } else {
+        None
+    }
+}
+pub fn sign_ph_create(chunks: &[&[u8]], sk: &[u8; 64]) -> [u8; 64] {
+    unsafe {
+        let mut st: so::crypto_sign_state = std::mem::zeroed();
+        so::crypto_sign_init(&mut st);
+        for c in chunks {
+            so::crypto_sign_update(&mut st, c.as_ptr(), c.len() as u64);
+        }
+        let mut sig = [0u8; 64];
+        let mut l: u64 = 0;
+        so::crypto_sign_final_create(&mut st, sig.as_mut_ptr(), &mut l, sk.as_ptr());
+        sig
+    }
+}
+pub fn sign_ph_verify(chunks: &[&[u8]], sig: &[u8; 64], pk: &[u8; 32]) -> bool {
+    unsafe {
+        let mut st: so::crypto_sign_state = std::mem::zeroed();
+        so::crypto_sign_init(&mut st);
+        for c in chunks {
+            so::crypto_sign_update(&mut st, c.as_ptr(), c.len() as u64);
+        }
+        so::crypto_sign_final_verify(&mut st, sig.as_ptr(), pk.as_ptr()) == 0
+    }
+}
+pub fn ed_pk_to_curve(pk: &[u8; 32]) -> Option<[u8; 32]> {
+    let mut x = [0u8; 32];
+    let r = unsafe { so::crypto_sign_ed25519_pk_to_curve25519(x.as_mut_ptr(), pk.as_ptr()) };
+    if r == 0 {
+        Some(x)
+    } else {
+        None
+    }
+}
+pub fn ed_sk_to_curve(sk: &[u8; 64]) -> [u8; 32] {
+    let mut x = [0u8; 32];
+    unsafe { so::crypto_sign_ed25519_sk_to_curve25519(x.as_mut_ptr(), sk.as_ptr()) };
+    x
+}
+
+// ---------------------------------------------------------------------------------------
+// hashes / MACs / cores / KDF
+
+pub fn auth(m: &[u8], k: &[u8; 32]) -> [u8; 32] {
+    let mut out = [0u8; 32];
+    unsafe { so::crypto_auth(out.as_mut_ptr(), m.as_ptr(), m.len() as u64, k.as_ptr()) };
+    out
+}
+pub fn onetimeauth(m: &[u8], k: &[u8; 32]) -> [u8; 16] {
+    let mut out = [0u8; 16];
+    unsafe { so::crypto_onetimeauth(out.as_mut_ptr(), m.as_ptr(), m.len() as u64, k.as_ptr()) };
+    out
+}
+pub fn shorthash(m: &[u8], k: &[u8; 16]) -> [u8; 8] {
+    let mut out = [0u8; 8];
+    unsafe { so::crypto_shorthash(out.as_mut_ptr(), m.as_ptr(), m.len() as u64, k.as_ptr()) };
+    out
+}
+pub fn hsalsa20(input: &[u8; 16], k: &[u8; 32], c: Option<&[u8; 16]>) -> [u8; 32] {
+    let mut out = [0u8; 32];
+    unsafe { so::crypto_core_hsalsa20(out.as_mut_ptr(), input.as_ptr(), k.as_ptr(), c.map(|c| c.as_ptr()).unwrap_or(ptr::null())) };
+    out
+}
+pub fn hchacha20(input: &[u8; 16], k: &[u8; 32], c: Option<&[u8; 16]>) -> [u8; 32] {
+    let mut out = [0u8; 32];
+    unsafe { so::crypto_core_hchacha20(out.as_mut_ptr(), input.as_ptr(), k.as_ptr(), c.map(|c| c.as_ptr()).unwrap_or(ptr::null())) };
+    out
+}
+pub fn increment(b: &mut [u8]) {
+    unsafe { so::sodium_increment(b.as_mut_ptr(), b.len()) }
+}
+pub fn kdf_derive(len: usize, id: u64, ctx: &[u8; 8], key: &[u8; 32]) -> Option<Vec<u8>> {
+    let mut out = vec![0u8; len];
+    let r = unsafe { so::crypto_kdf_derive_from_key(out.as_mut_ptr(), len, id, ctx.as_ptr() as *const libc::c_char, key.as_ptr()) };
+    if r == 0 {
+        Some(out)
+    } else {
+        None
+    }
+}
+
+// ---------------------------------------------------------------------------------------
+// Argon2 / pwhash
+
+extern "C" {
+    fn argon2_hash(
+        t_cost: u32,
+        m_cost: u32,
+        parallelism: u32,
+        pwd: *const libc::c_void,
+        pwdlen: libc::size_t,
+        salt: *const libc::c_void,
+        saltlen: libc::size_t,
+        hash: *mut libc::c_void,
+        hashlen: libc::size_t,
+        encoded: *mut libc::c_char,
+        encodedlen: libc::size_t,
+        type_: libc::c_int,
+    ) -> libc::c_int;
+}
+
+/// libsodium's raw argon2_hash (any salt >= 8, any t >= 1): (rc, hash, encoded string)
+pub fn argon2_raw(t: u32, m_kib: u32, pwd: &[u8], salt: &[u8], outlen: usize, typ: i32, want_encoded: bool) -> (i32, Vec<u8>, String) {
+    let mut out = vec![0u8; outlen];
+    let mut enc = vec![0u8; if want_encoded { 64 + 2 * (salt.len() + outlen) + 64 } else { 0 }];
+    let rc = unsafe {
+        argon2_hash(
+            t,
+            m_kib,
+            1,
+            pwd.as_ptr() as *const libc::c_void,
+            pwd.len(),
+            salt.as_ptr() as *const libc::c_void,
+            salt.len(),
+            out.as_mut_ptr() as *mut libc::c_void,
+            outlen,
+            if want_encoded { enc.as_mut_ptr() as *mut libc::c_char } else { ptr::null_mut() },
+            enc.len(),
+            typ,
+        )
+    };
+    let s = if want_encoded {
+        let n = enc.iter().position(|b| *b == 0).unwrap_or(enc.len());
+        String::from_utf8_lossy(&enc[..n]).to_string()
+    } else {
+        String::new()
+    };
+    (rc, out, s)
+}
+
+/// crypto_pwhash (alg 1 = argon2i13, 2 = argon2id13); None when libsodium refuses
+pub fn pwhash(outlen: usize, pwd: &[u8], salt: &[u8; 16], ops: u64, mem: usize, alg: i32) -> Option<Vec<u8>> {
+    let mut out = vec![0u8; outlen];
+    let r = unsafe { so::crypto_pwhash(out.as_mut_ptr(), outlen as u64, pwd.as_ptr() as *const libc::c_char, pwd.len() as u64, salt.as_ptr(), ops, mem, alg) };
+    if r == 0 {
+        Some(out)
+    } else {
+        None
+    }
+}
+pub fn pwhash_str(pwd: &[u8], ops: u64, mem: usize) -> Option<String> {
+    let mut out = [0 as libc::c_char; 128];
+    let r = unsafe { so::crypto_pwhash_str(out.as_mut_ptr(), pwd.as_ptr() as *const libc::c_char, pwd.len() as u64, ops, mem) };
+    if r != 0 {
+        return None;
+    }
+    let bytes: Vec<u8> = out.iter().take_while(|c| **c != 0).map(|c| *c as u8).collect();
+    Some(String::from_utf8(bytes).unwrap())
+}
+pub fn pwhash_str_verify(s: &str, pwd: &[u8]) -> bool {
+    let mut buf = [0 as libc::c_char; 128];
+    if s.len() >= 128 {
+        return false;
+    }
+    for (i, b) in s.bytes().enumerate() {
+        buf[i] = b as libc::c_char;
+    }
+    unsafe { so::crypto_pwhash_str_verify(buf.as_ptr(), pwd.as_ptr() as *const libc::c_char, pwd.len() as u64) == 0 }
+}
+/// Some(true) = needs rehash, Some(false) = does not, None = libsodium cannot parse
+pub fn pwhash_str_needs_rehash(s: &str, ops: u64, mem: usize) -> Option<bool> {
+    let mut buf = [0 as libc::c_char; 128];
+    if s.len() >= 128 {
+        return None;
+    }
+    for (i, b) in s.bytes().enumerate() {
+        buf[i] = b as libc::c_char;
+    }
+    match unsafe { so::crypto_pwhash_str_needs_rehash(buf.as_ptr(), ops, mem) } {
+        0 => Some(false),
+        1 => Some(true),
+        _ => None,
+    }
+}
